@@ -4,7 +4,7 @@
    NF predicates: Model/NF.v; pass models: Model/PassesChain.v (validated by correspondence). *)
 From Coq Require Import List String Bool.
 From Cog Require Import Model.IR Model.Passes Model.PassesChain Model.Process Model.NF Model.Spec06
-     Gen.Chains_gen Proofs.C06Proofs.
+     Gen.Chains_gen Proofs.C06Proofs Proofs.ChainNFProofs Proofs.ChainPresProofs.
 Import ListNotations.
 Local Open Scope string_scope.
 
@@ -85,6 +85,73 @@ Print Assumptions nf_php_refuted.
 Theorem nf_python_refuted : chain_breaks "python" chain_python w_opt "T-or-null-union".
 Proof. eexists; (split; [vm_compute; reflexivity|vm_compute; tauto]). Qed.
 Print Assumptions nf_python_refuted.
+
+(* ---- what each establishing pass establishes, for all IRs of any nesting (Proofs/ChainNFProofs.v) ---- *)
+Theorem anonymous_enum_to_explicit_type_establishes : forall ss,
+  has_anonymous_enum (anonymous_enum_to_explicit_type ss) = false.
+Proof. exact aete_establishes_no_anonymous_enum. Qed.
+Print Assumptions anonymous_enum_to_explicit_type_establishes.
+Theorem anonymous_structs_to_named_establishes : forall ss,
+  has_anonymous_struct (anonymous_structs_to_named ss) = false.
+Proof. exact astn_establishes_no_anonymous_struct. Qed.
+Print Assumptions anonymous_structs_to_named_establishes.
+Theorem sanitize_enum_member_names_establishes : forall ss out,
+  sanitize_enum_member_names ss = Ok out -> php_unsanitised_member out = false.
+Proof. exact sanitize_establishes. Qed.
+Print Assumptions sanitize_enum_member_names_establishes.
+Theorem prefix_enum_values_establishes : forall ss out,
+  prefix_enum_values ss = Ok out -> go_unprefixed_member out = false.
+Proof. exact prefix_establishes. Qed.
+Print Assumptions prefix_enum_values_establishes.
+(* the two union passes establish their part exactly when no union sits below a union branch
+   (otherwise: the witnesses of nf_*_refuted = finding C06-union-nested-in-union-branch) *)
+Theorem disjunction_with_null_to_optional_establishes : forall ss out,
+  nested_union ss = false -> disjunction_with_null_to_optional ss = Ok out -> has_t_or_null out = false.
+Proof. exact dwnto_establishes_no_t_or_null. Qed.
+Print Assumptions disjunction_with_null_to_optional_establishes.
+Theorem disjunction_to_type_establishes : forall ss out,
+  nested_union ss = false -> nested_union_entry ss = false -> disjunction_to_type ss = Ok out -> has_union out = false.
+Proof. exact dtt_establishes_no_union. Qed.
+Print Assumptions disjunction_to_type_establishes.
+
+(* ---- chain-level normal forms on "tame" inputs (Proofs/ChainPresProofs.v): establishment by the right pass
+   and preservation by every later pass of the REGENERATED chain.  tame_<lang> is decidable and excludes exactly
+   the shapes behind the open findings (union below a union branch, union inside an allOf composition,
+   entry point that is not a plain reference, an optional union that becomes `any`; Python: a null branch in a
+   union of more than two branches, numeric member names too long to rename). ---- *)
+Theorem nf_go_partial : forall ss out,
+  tame_go ss = true -> process chain_go ss = Ok out -> nf_violations "go" out = [].
+Proof. exact go_chain_nf. Qed.
+Print Assumptions nf_go_partial.
+Theorem nf_go_no_union_partial : forall ss out,
+  nested_union ss = false -> entry_simple ss = true -> process chain_go ss = Ok out ->
+  has_union out = false /\ has_t_or_null out = false.
+Proof. exact go_chain_no_union. Qed.
+Print Assumptions nf_go_no_union_partial.
+(* Java: the chain without its last pass; RemoveIntersections rebuilds fields (finding C06-java-remove-intersections-fields) *)
+Theorem nf_java_core_partial : forall ss out,
+  tame_java ss = true -> process (removelast chain_java) ss = Ok out -> nf_violations "java" out = [].
+Proof. exact java_chain_core_nf. Qed.
+Print Assumptions nf_java_core_partial.
+Theorem nf_python_partial : forall ss out,
+  tame_python ss = true -> process chain_python ss = Ok out -> nf_violations "python" out = [].
+Proof. exact python_chain_nf. Qed.
+Print Assumptions nf_python_partial.
+(* the hypotheses are satisfiable by a schema that exercises every pass, and each conjunct of tame_go is needed *)
+Theorem nf_go_partial_nonvacuous :
+  tame_go w_tame = true /\
+  nf_violations "go" w_tame = ["union-remains"; "anonymous-enum"; "anonymous-struct"; "optional-field-not-nullable"; "T-or-null-union"] /\
+  exists out, process chain_go w_tame = Ok out /\ List.length (objects_of out) = 11 /\ nf_violations "go" out = [].
+Proof. exact go_chain_nf_nonvacuous. Qed.
+Print Assumptions nf_go_partial_nonvacuous.
+Theorem nf_go_partial_conditions_needed :
+  (nested_union w_union_in_array_branch = true /\ go_breaks w_union_in_array_branch "union-remains") /\
+  (union_in_inter w_union_in_inter = true /\ nested_union w_union_in_inter = false /\ go_breaks w_union_in_inter "anonymous-struct") /\
+  (tame_go w_optional_any = false /\ nested_union w_optional_any = false /\ union_in_inter w_optional_any = false /\
+   entry_simple w_optional_any = true /\ go_breaks w_optional_any "optional-field-not-nullable") /\
+  (entry_simple w_union_entry = false /\ nested_union w_union_entry = false /\ go_breaks w_union_entry "union-remains").
+Proof. exact tame_go_conditions_needed. Qed.
+Print Assumptions nf_go_partial_conditions_needed.
 
 (* non-vacuity: the establishing pass really changes something, and a chain can succeed cleanly *)
 Example c06_nonvacuous :
